@@ -74,7 +74,7 @@ def run(rep, tier):
         nd = halpipe.subsample(descs, keep, common.seed())
         events, bad = halpipe.run_and_validate_sharded(rep, wd, descs, name + ".g", shards=10)
         nhal += len(events)
-        nb = halpipe.report(rep, events, bad, {"fill"}, name)      # an under-declared scratch panics (C12): not a memory access
+        nb = halpipe.report(rep, events, bad, {"fill", "scrmem"}, name)      # an under-declared scratch panics (C12): not a memory access
         rep.extra.setdefault("corpora", []).append({"corpus": name + " (guard pages)", "descriptors": nd, "events": len(events)})
         log("[C17] corpus %s under guard pages: %d events, %d rejected (frame / scratch), %d faults so far" % (name, len(events), nb, len(halpipe.SIGNALS)))
     halpipe.GUARD = None
@@ -89,7 +89,7 @@ def run(rep, tier):
                                           keep=lambda x: x["op"] != "pack" or (x["bin"] == x["bout"] and x["sin"] == x["sout"]))
         events, bad = kspipe.run_and_validate(rep, wd, path, name + "g", shards=12, sub=sub, guard="1", signals=sig)
         ncore += len(events)
-        kspipe.report(rep, events, bad, {"fill"}, name + "g")
+        kspipe.report(rep, events, bad, {"fill", "scrmem"}, name + "g")
     for s in sig:
         d = s["desc"]
         rep.violation("core:signal:%s" % d.get("op"), "scheme-level call faulted (signal %s): %s" % (s["signal"], json.dumps(d)[:300]), {"descriptor": d, "signal": s["signal"]})
